@@ -4,8 +4,11 @@ import (
 	"errors"
 	"fmt"
 	"math/rand"
+	"sort"
 	"strconv"
 	"strings"
+	"sync"
+	"time"
 
 	"github.com/Fantom-foundation/lachesis-base/kvdb"
 	"github.com/Fantom-foundation/lachesis-base/kvdb/cachedproducer"
@@ -18,13 +21,35 @@ import (
 //   W = cachedproducer.Wrap over a counting kvdb.DBProducer, A = WrapAll over a counting FullDBProducer
 //   ops: O name | F name (underlying OpenDB fails this time) | C name | D name (newest handle of name)
 //        CH uid | DH uid (handle that wraps underlying store uid, possibly stale)
+//        PAR a x b y (two calls, b issued while a is inside its underlying Open/Close/Drop)
 // Observation per op: "; <res> <underlying calls>", see coq/extract/C27/driver.ml.
 // A panic inside OpenDB leaves the producer's mutex locked: the remaining ops are not run ("dead").
 
 type c27prod struct {
+	mu     sync.Mutex
 	next   int
 	fail   bool
 	events []string
+	// gate: when armed, the next underlying call (OpenDB / Close / Drop) logs its event, reports
+	// that it is inside the call and blocks until released.  Used by the PAR family to issue a
+	// second call while the first one is inside the underlying database.
+	armed   bool
+	entered chan struct{}
+	release chan struct{}
+}
+
+// enter logs the underlying call and blocks in it if the gate is armed.
+func (p *c27prod) enter(ev string) {
+	p.mu.Lock()
+	p.events = append(p.events, ev)
+	block := p.armed
+	p.armed = false
+	ent, rel := p.entered, p.release
+	p.mu.Unlock()
+	if block {
+		ent <- struct{}{}
+		<-rel
+	}
 }
 
 type c27store struct {
@@ -34,32 +59,43 @@ type c27store struct {
 }
 
 func (s *c27store) Close() error {
-	s.p.events = append(s.p.events, "close:"+strconv.Itoa(s.uid))
+	s.p.enter("close:" + strconv.Itoa(s.uid))
 	return nil
 }
 
 func (s *c27store) Drop() {
-	s.p.events = append(s.p.events, "drop:"+strconv.Itoa(s.uid))
+	s.p.enter("drop:" + strconv.Itoa(s.uid))
 }
 
 func (p *c27prod) OpenDB(name string) (kvdb.Store, error) {
 	n := strings.TrimPrefix(name, "db")
-	if p.fail {
-		p.events = append(p.events, "openfail:"+n)
+	p.mu.Lock()
+	fail := p.fail
+	uid := p.next
+	if !fail {
+		p.next++
+	}
+	p.mu.Unlock()
+	if fail {
+		p.enter("openfail:" + n)
 		return nil, errors.New("underlying open failed")
 	}
-	uid := p.next
-	p.next++
-	p.events = append(p.events, "open:"+n+":"+strconv.Itoa(uid))
+	p.enter("open:" + n + ":" + strconv.Itoa(uid))
 	return &c27store{Store: memorydb.New(), uid: uid, p: p}, nil
 }
 
 // the rest of kvdb.FullDBProducer (not used by openDB)
-func (p *c27prod) Names() []string                                { return nil }
-func (p *c27prod) NotFlushedSizeEst() int                         { return 0 }
-func (p *c27prod) Flush(id []byte) error                          { return nil }
+func (p *c27prod) Names() []string                                  { return nil }
+func (p *c27prod) NotFlushedSizeEst() int                           { return 0 }
+func (p *c27prod) Flush(id []byte) error                            { return nil }
 func (p *c27prod) Initialize(n []string, id []byte) ([]byte, error) { return id, nil }
-func (p *c27prod) Close() error                                   { return nil }
+func (p *c27prod) Close() error                                     { return nil }
+
+type c27call struct {
+	res string
+	h   kvdb.Store // handle returned by a successful OpenDB
+	uid int
+}
 
 func c27Run(in []string) []string {
 	var groups [][]string
@@ -78,15 +114,92 @@ func c27Run(in []string) []string {
 	}
 	p := &c27prod{}
 	var prod kvdb.DBProducer
-	if groups[0][0] == "A" {
+	if strings.HasPrefix(groups[0][0], "A") {
 		prod = cachedproducer.WrapAll(p)
 	} else {
 		prod = cachedproducer.Wrap(p)
 	}
-	byUID := map[int]kvdb.Store{}   // handle (the *StoreWithFn) that wraps store uid
-	newest := map[string]int{}      // name -> uid of the newest handle
+	byUID := map[int]kvdb.Store{} // handle (the *StoreWithFn) that wraps store uid
+	newest := map[string]int{}    // name -> uid of the newest handle
 	obs := []string{}
 	dead := false
+
+	// resolve the handle an op acts on (before the call is issued)
+	resolve := func(o []string) (kvdb.Store, bool) {
+		switch o[0] {
+		case "C", "D":
+			uid, ok := newest[o[1]]
+			if !ok {
+				return nil, false
+			}
+			return byUID[uid], true
+		case "CH", "DH":
+			uid, _ := strconv.Atoi(o[1])
+			h, ok := byUID[uid]
+			return h, ok
+		}
+		return nil, true
+	}
+	// issue one call (may run in its own goroutine)
+	issue := func(o []string, h kvdb.Store, hok bool) (c c27call) {
+		defer func() {
+			if r := recover(); r != nil {
+				c.res = "PANIC"
+				vu.Stat("panic:" + strings.ReplaceAll(fmt.Sprint(r), " ", "_"))
+			}
+		}()
+		switch o[0] {
+		case "O", "F":
+			if o[0] == "F" {
+				p.mu.Lock()
+				p.fail = true
+				p.mu.Unlock()
+			}
+			st, err := prod.OpenDB("db" + o[1])
+			p.mu.Lock()
+			p.fail = false
+			p.mu.Unlock()
+			if err != nil {
+				return c27call{res: "openerr"}
+			}
+			w, ok := st.(*cachedproducer.StoreWithFn)
+			if !ok {
+				return c27call{res: "h?notwrapped"}
+			}
+			uid := w.Store.(*c27store).uid
+			return c27call{res: "h" + strconv.Itoa(uid), h: st, uid: uid}
+		case "C", "CH":
+			if !hok {
+				return c27call{res: "nohandle"}
+			}
+			if err := h.Close(); err != nil {
+				vu.Stat("overclose")
+				return c27call{res: "overclose"}
+			}
+			return c27call{res: "ok"}
+		case "D", "DH":
+			if !hok {
+				return c27call{res: "nohandle"}
+			}
+			h.Drop()
+			return c27call{res: "ok"}
+		}
+		panic("bad op " + o[0])
+	}
+	// book-keeping after a call returned
+	commit := func(o []string, c *c27call) {
+		if c.h == nil {
+			return
+		}
+		if prev, seen := byUID[c.uid]; seen && prev != c.h {
+			c.res += "!otherpointer"
+		} else if seen {
+			vu.Stat("open_cached")
+		}
+		byUID[c.uid] = c.h
+		newest[o[1]] = c.uid
+	}
+
 	for _, o := range groups[1:] {
 		if len(o) == 0 {
 			continue
@@ -96,75 +209,90 @@ func c27Run(in []string) []string {
 			continue
 		}
 		vu.Stat("op_" + o[0])
+		p.mu.Lock()
 		p.events = p.events[:0]
-		res := func() (res string) {
-			defer func() {
-				if r := recover(); r != nil {
-					res = "PANIC"
-					dead = true
-					vu.Stat("panic:" + strings.ReplaceAll(fmt.Sprint(r), " ", "_"))
-				}
-			}()
-			handleOf := func() (kvdb.Store, bool) {
-				switch o[0] {
-				case "C", "D":
-					uid, ok := newest[o[1]]
-					if !ok {
-						return nil, false
-					}
-					return byUID[uid], true
-				default:
-					uid, _ := strconv.Atoi(o[1])
-					h, ok := byUID[uid]
-					return h, ok
+		p.mu.Unlock()
+		if o[0] == "PAR" {
+			// PAR a x b y: call a is issued first; the second call is issued while the first is
+			// inside its underlying call (or after it returned, if it makes none); then the
+			// first is released.  Handles are resolved before either call starts.
+			if len(o) != 5 {
+				panic("bad PAR")
+			}
+			a, b := o[1:3], o[3:5]
+			ha, oka := resolve(a)
+			hb, okb := resolve(b)
+			p.mu.Lock()
+			p.armed = true
+			p.entered = make(chan struct{}, 1)
+			p.release = make(chan struct{})
+			ent, rel := p.entered, p.release
+			p.mu.Unlock()
+			done1 := make(chan c27call, 1)
+			go func() { done1 <- issue(a, ha, oka) }()
+			var c1, c2 c27call
+			first := false
+			select {
+			case <-ent:
+				vu.Stat("par_overlap_" + a[0] + b[0])
+			case c1 = <-done1:
+				first = true
+				vu.Stat("par_no_underlying_call")
+			case <-time.After(3 * time.Second):
+				return append(obs, ";", "HANG")
+			}
+			p.mu.Lock()
+			p.armed = false
+			p.mu.Unlock()
+			done2 := make(chan c27call, 1)
+			go func() { done2 <- issue(b, hb, okb) }()
+			select {
+			case c2 = <-done2:
+			case <-time.After(3 * time.Second):
+				close(rel)
+				return append(obs, ";", "HANG")
+			}
+			close(rel)
+			if !first {
+				select {
+				case c1 = <-done1:
+				case <-time.After(3 * time.Second):
+					return append(obs, ";", "HANG")
 				}
 			}
-			switch o[0] {
-			case "O", "F":
-				p.fail = o[0] == "F"
-				h, err := prod.OpenDB("db" + o[1])
-				p.fail = false
-				if err != nil {
-					return "openerr"
-				}
-				w, ok := h.(*cachedproducer.StoreWithFn)
-				if !ok {
-					return "h?notwrapped"
-				}
-				uid := w.Store.(*c27store).uid
-				if prev, seen := byUID[uid]; seen && prev != h {
-					return "h" + strconv.Itoa(uid) + "!otherpointer"
-				} else if seen {
-					vu.Stat("open_cached")
-				}
-				byUID[uid] = h
-				newest[o[1]] = uid
-				return "h" + strconv.Itoa(uid)
-			case "C", "CH":
-				h, ok := handleOf()
-				if !ok {
-					return "nohandle"
-				}
-				if err := h.Close(); err != nil {
-					vu.Stat("overclose")
-					return "overclose"
-				}
-				return "ok"
-			case "D", "DH":
-				h, ok := handleOf()
-				if !ok {
-					return "nohandle"
-				}
-				h.Drop()
-				return "ok"
+			// "newest handle" = the one returned last: the blocked first call returns after the second
+			if first {
+				commit(a, &c1)
+				commit(b, &c2)
+			} else {
+				commit(b, &c2)
+				commit(a, &c1)
 			}
-			panic("bad op " + o[0])
-		}()
+			if c1.res == "PANIC" || c2.res == "PANIC" {
+				dead = true
+			}
+			p.mu.Lock()
+			evs := append([]string{}, p.events...)
+			p.mu.Unlock()
+			sort.Strings(evs)
+			ev := "-"
+			if len(evs) > 0 {
+				ev = strings.Join(evs, ",")
+			}
+			obs = append(obs, ";", "par", c1.res, c2.res, ev)
+			continue
+		}
+		h, hok := resolve(o)
+		c := issue(o, h, hok)
+		commit(o, &c)
+		if c.res == "PANIC" {
+			dead = true
+		}
 		ev := "-"
 		if len(p.events) > 0 {
 			ev = strings.Join(p.events, ",")
 		}
-		obs = append(obs, ";", res, ev)
+		obs = append(obs, ";", c.res, ev)
 	}
 	return obs
 }
@@ -237,6 +365,52 @@ func init() {
 				}
 				in := []string{c}
 				in = append(in, c27GenOps(r, 1+r.Intn(30), 1+r.Intn(3), r.Intn(5) == 0)...)
+				emit(in...)
+			}
+			// overlapping calls on forced interleavings (PAR a x b y: b is issued while a is inside
+			// its underlying call): every pair over {O0,C0,D0,O1,C1,D1} after every prefix and
+			// before every suffix of a small set, for both constructors
+			parOps := [][]string{{"O", "0"}, {"C", "0"}, {"D", "0"}, {"O", "1"}, {"C", "1"}, {"D", "1"}}
+			prefixes := [][]string{{}, {"O", "0"}, {"O", "0", ";", "O", "0"}, {"O", "0", ";", "C", "0"}, {"O", "0", ";", "D", "0"},
+				{"O", "0", ";", "O", "1"}, {"O", "0", ";", "C", "0", ";", "D", "0"}, {"O", "0", ";", "O", "0", ";", "D", "0", ";", "C", "0"}}
+			suffixes := [][]string{{}, {"C", "0"}, {"D", "0"}, {"O", "0", ";", "D", "0"}, {"C", "0", ";", "C", "0", ";", "O", "0"}}
+			for _, c := range []string{"W", "A"} {
+				for _, pre := range prefixes {
+					for _, a := range parOps {
+						for _, b := range parOps {
+							for si, suf := range suffixes {
+								if tier != "thorough" && si > 2 && c == "A" {
+									continue
+								}
+								in := []string{c}
+								if len(pre) > 0 {
+									in = append(in, ";")
+									in = append(in, pre...)
+								}
+								in = append(in, ";", "PAR", a[0], a[1], b[0], b[1])
+								if len(suf) > 0 {
+									in = append(in, ";")
+									in = append(in, suf...)
+								}
+								emit(in...)
+							}
+						}
+					}
+				}
+			}
+			// random histories with several overlaps
+			for i := 0; i < n/10; i++ {
+				c := []string{"W", "A"}[r.Intn(2)]
+				in := []string{c}
+				for j := 0; j < 2+r.Intn(10); j++ {
+					if r.Intn(3) == 0 {
+						a, b := parOps[r.Intn(len(parOps))], parOps[r.Intn(len(parOps))]
+						in = append(in, ";", "PAR", a[0], a[1], b[0], b[1])
+					} else {
+						o := parOps[r.Intn(len(parOps))]
+						in = append(in, ";", o[0], o[1])
+					}
+				}
 				emit(in...)
 			}
 		},
